@@ -11,20 +11,24 @@ RULE = (
 )
 ASSUMPTIONS = [
     "tolerance 1e4*eps*kappa*M: kappa = condition number of the balanced interpolation matrix a = S W S "
-    "(comparisons are made for kappa < 1e10 only); M = first-order sensitivity of the updating formula sigma = "
+    "(comparisons are made for kappa < 1e13); M = first-order sensitivity of the updating formula sigma = "
     "alpha*beta + tau^2 to a relative error eps*kappa *in norm* of the two balanced solves: |S_kk| |a^-1 S e_k| "
     "(|d|^4/2 + |w'W^-1 w|) + |alpha| |S w| |a^-1 S w| + 2 |tau| |S_kk| |a^-1 S w| + |alpha|(|d|^4/2 + |w'W^-1 w|) "
     "+ tau^2, estimated in floats by the harness (for a nearly degenerate set the k-th components alpha, tau are "
-    "tiny next to the solutions they are read from)",
+    "tiny next to the solutions they are read from); since M itself grows with the conditioning, the bound "
+    "3e4*eps*sqrt(kappa)*M (calibrated: worst measured 160 over 13 decades of kappa) is applied as well and the "
+    "smaller of the two is the tolerance; a third bound 2e3*eps*kappa*Mcw uses the component-wise magnitude "
+    "Mcw (sums of |v_i[k] (v_i.r)/lambda_i| over the eigenpairs of the balanced matrix; worst measured 26)",
 ]
 
 
 def budget(tier):
-    return 640 if tier == "quick" else 25000
+    return 960 if tier == "quick" else 25000
 
 
 def machines(tier):
-    return [("models", MM.make_machine({"C14"}, 3 if tier == "quick" else 4), 1.0, 12 if tier == "quick" else 30)]
+    return [("models", MM.make_machine({"C14"}, 3 if tier == "quick" else 4, neardeg=(0, 0, 0, 4, 7, 10, 13, 20, 30)), 1.0,
+             12 if tier == "quick" else 30)]
 
 
 def replay_ops(name, init, ops):
